@@ -51,7 +51,7 @@ CLAIMED = {
  "C12": dict(
    level="model_checking", design="§3 C12",
    technique="exhaustive enumeration of table-file arrangements run through the real compaction coordinator, explicit-state search over flush/compact/restart programs on the real engine, and crash-point enumeration inside compaction",
-   text="File level: every {absent,value,tombstone} assignment of 3 keys x files for 9 file-set shapes (2 keys for the 4-file shapes in the quick tier; three shapes make a level outweigh the next one so that the size-ratio selection runs) is written with the real SSTable writer; TriggerCompaction (until nothing is selected, checked after every cycle) and CompactRange over 5 ranges run with tracked / unknown / expired tombstones; the newest-wins merged view of all files must not change, outputs must be sorted and files of a level >=1 must not share keys. Engine level: all programs up to depth 4 (6 thorough) over {flushed put/delete of 2 keys, compact, compact-range, reopen, clock +25 h}: reads = model live, after reopen, after reopen with the flushed log files retired, and after one more compaction. Crash points: every call-log prefix and torn write inside a compaction following 3 flushed writes.",
+   text="File level: every {absent,value,tombstone} assignment of 3 keys x files for 10 file-set shapes (2 keys for the 4-file shapes in the quick tier; three shapes make a level outweigh the next one so that the size-ratio selection runs) is written with the real SSTable writer; TriggerCompaction (until nothing is selected, checked after every cycle) and CompactRange over 5 ranges run with tracked / unknown / expired tombstones; the newest-wins merged view of all files must not change, outputs must be sorted and files of a level >=1 must not share keys. Engine level: all programs up to depth 4 (6 thorough) over {flushed put/delete of 2 keys, compact, compact-range, reopen, clock +25 h}: reads = model live, after reopen, after reopen with the flushed log files retired, and after one more compaction. Crash points: every call-log prefix and torn write inside a compaction following 3 flushed writes.",
    note="Recency rule (lower level newer; within level 0 higher file number newer) is the specification's. Log retirement is simulated by deleting flushed log files."),
  "C06": dict(
    level="model_checking", design="§3 C06, §2.2",
